@@ -4,7 +4,9 @@ import random
 import common
 
 META = {
-    "level_text": ("Theorems (Lean 4): process_current_order stores the snapshot as the order's current order, so every size the order reports "
+    "level_text": ("Adoption after a restart keeps the exchange's terms for every order type (adopted_limit / adopted_limit_on_close: liability from bspLiability, "
+                   "limit from priceSize.price / adopted_market_on_close). "
+                   "Theorems (Lean 4): process_current_order stores the snapshot as the order's current order, so every size the order reports "
                    "afterwards is the exchange's; an asynchronous order picks its bet id up from the stream and any other order keeps its own; a "
                    "snapshot processed while nothing is outstanding (order resting, or pending with its bet id known) makes the order complete "
                    "exactly when the exchange says so; an order with a request in flight waits for its response (status and log untouched); "
